@@ -93,7 +93,7 @@ def _build(tier: str):
     n = 10 if tier == 'quick' else 30
 
     def build(rnd: Any) -> dict:
-        return OPS.build_program(rnd, cfg, common.EDIT_FAMILIES, n, common.parse_file)
+        return OPS.build_program(rnd, cfg, common.EDIT_FAMILIES, n, common.parse_file, stick=0.5)
     return build
 
 
